@@ -160,7 +160,7 @@ def patch_obj_scenario(vc, *, op_counts=(0, 2), silent=False):
             s.calls.append(Opaque('as_json_patch', receiver=self, base=base, ops=ops, items=list(ops), seq=len(vc.trace)))
             vc.emit('as_json_patch', self, base, ops)
             return ops
-    vc.used('patches.Patch.as_json_patch', 'A5')
+    vc.used('patches.Patch.as_json_patch', 'A5j (deductive) + A5 (bounded, the real jsonpatch)')
     s.patch = ContractPatch(s.content, body=s.original, fns=s.fns)
     s.patch_before = dict(s.patch)
     s.settings, s.logger = Opaque('settings'), NullLogger()
@@ -455,7 +455,7 @@ def A2(vc):
         items = [[], [real.DiffItem(real.DiffOperation.REMOVE, ('metadata', 'finalizers'), [], None)],
                  [real.DiffItem(real.DiffOperation.CHANGE, ('status', 'y'), 'a', 'b')]][dk[0]]
         return real.Diff(items)
-    vc.used('diffs.diff', 'E3')
+    vc.used('diffs.diff', 'E3w + E3d (deductive); E3 bounded')
     ld = vc.load('kopf._core.actions.application', 'patch_and_check', stubs={'patching.patch_obj': patch_obj, 'diffs.diff': diff})
     raised = None
     try:
